@@ -201,6 +201,23 @@ class Builder:
                 if cand:
                     code, vendor = c, self.rng.choice(cand)
                     self.colliding_extras = getattr(self, "colliding_extras", 0) + 1
+                if self.rng.random() < 0.5:
+                    # ... or a pair that is *arithmetically* or *textually* close to a declared one - what a packed or
+                    # concatenated lookup key may confuse: same low 16 / 24 bits of the code, code and vendor swapped,
+                    # the carry of the code's high bits into the vendor, the digits of the pair split elsewhere
+                    sc, sv = str(c), str(v)
+                    near = [(c + (1 << 24), v), (c + (2 << 24), v), (c + (1 << 16), v), (c | 0x80000000, v),
+                            (c + (1 << 24), v - 1), (c + (3 << 24), v - 3), (v, c), (c, v + (1 << 24)),
+                            (c, v + (1 << 16))]
+                    if len(sv) > 1:
+                        near.append((int(sc + sv[0]), int(sv[1:])))
+                    if len(sc) > 1:
+                        near.append((int(sc[:-1]), int(sc[-1] + sv)))
+                    near = [(x, y) for x, y in near if 0 < x < (1 << 32) and 0 <= y < (1 << 32)
+                            and (x, y) not in declared and self.md.L.dict_lookup(x, y) is None]
+                    if near:
+                        code, vendor = self.rng.choice(near)
+                        self.near_extras = getattr(self, "near_extras", 0) + 1
             fl = self.rng.choice([0, 0x40, 0x20])
             payload = self.rng.randbytes(self.rng.randrange(1, 10))
             objs.append(Avp(code, vendor, payload, fl))
@@ -307,6 +324,8 @@ class Dyn:
             self.cov["with_extras"] += 1
             self.cov["extras_with_declared_code_other_vendor"] = \
                 self.cov.get("extras_with_declared_code_other_vendor", 0) + getattr(b, "colliding_extras", 0)
+            self.cov["extras_numerically_close_to_a_declared_pair"] = \
+                self.cov.get("extras_numerically_close_to_a_declared_pair", 0) + getattr(b, "near_extras", 0)
         names = sorted(set_vals)
         self.evals += 1
         desc = {"class": cls.__name__, "case": label, "set": names[:12], "extras": n_extra,
